@@ -62,6 +62,23 @@ def _judge(ctx, mods, w, st, results, deadlock, extra_events=(), judge=True, ign
         op.check(ctx, w, st, o, exp, tag)
 
 
+def _short_policy(ctx, shape):
+    """at most shape['short_writes'] short writes (half of the buffer), each placed by explorer choice"""
+    n = shape.get('short_writes', 0)
+    if not n:
+        return None
+    budget = {'n': n, 'on': False}
+
+    def short_write(L, idx):
+        if budget['n'] <= 0 or L < 2 or idx < shape.get('short_from', 2):
+            return L
+        if ctx.choose(2, 'short write?'):
+            budget['n'] -= 1
+            return L // 2
+        return L
+    return short_write
+
+
 def _after_and_ids(ctx, w, st, shape):
     """optional sequential opens after the concurrent phase; then: ids of streams that are open at the same time differ"""
     for i in range(shape.get('after_opens', 0)):
@@ -92,7 +109,7 @@ def h_threads(ctx, mods, shape):
     pick = (lambda ready: ctx.choose(len(ready), 'device: which ready stream next'))
     st = Std(ctx, maxdata=4096, pick=pick, sym_rid=shape.get('sym_rid', False))
     sched.SchedLock.sched = None
-    w = World(ctx, mods, st.dev, impl='sync', default_timeout=1, budget=600)
+    w = World(ctx, mods, st.dev, impl='sync', default_timeout=1, budget=600, short_write=_short_policy(ctx, shape))
     io = w.dev._io_manager
     io._store_lock.name = 'store_lock'
     io._transport_lock.name = 'transport_lock'
@@ -134,7 +151,7 @@ def h_threads(ctx, mods, shape):
 def h_async(ctx, mods, shape):
     pick = (lambda ready: ctx.choose(len(ready), 'device: which ready stream next'))
     st = Std(ctx, maxdata=4096, pick=pick, sym_rid=shape.get('sym_rid', False))
-    w = World(ctx, mods, st.dev, impl='async', default_timeout=1, budget=600)
+    w = World(ctx, mods, st.dev, impl='async', default_timeout=1, budget=600, short_write=_short_policy(ctx, shape))
     ctrl = sched.AsyncController(ctx, w.wire)
     tr = sched.make_async_transport(mods, ctrl)
     dev = mods.adb_device_async.AdbDeviceAsync(tr, default_transport_timeout_s=1, banner=b'host')
